@@ -1,17 +1,46 @@
 """Which units / harnesses decide which property (DESIGN.md §1, §4)."""
 
-# unit -> property that owns the *unlabelled* safety obligations of the extracted bodies
+# unit -> property that owns the *unlabelled* safety obligations (overflow, index, unwrap, termination)
+# of the extracted bodies
 UNIT_SAFETY = {
     "trg": "C01",
+    "adc": "C01",
+    "chunk": "C01",
+    "pwb": "C01",
 }
 
 PROPS = {
+    "C01": {
+        "title": "Raw-data decoders are total",
+        "units": ["trg", "adc", "chunk", "pwb"],
+        "kani_quick": ["trg_complete_80", "trg_other_lengths"],
+        "kani_thorough": [],
+        "level": "proof",
+    },
+    "C02": {
+        "title": "ADC packet decoding is exact",
+        "units": ["adc"],
+        "kani_quick": [],
+        "kani_thorough": [],
+        "level": "proof",
+    },
+    "C03": {
+        "title": "PWB chunks are integrity-checked",
+        "units": ["chunk"],
+        "level": "proof",
+    },
+    "C05": {
+        "title": "PWB packet decoding is exact",
+        "units": ["pwb"],
+        "level": "proof",
+    },
     "C06": {
         "title": "TRG packet decoding is exact and decoded counters are ordered",
         "units": ["trg"],
         "kani_quick": ["trg_complete_80", "trg_other_lengths"],
         "kani_thorough": [],
-        "kani_arbiter": {"C06.accept_iff": ["trg_complete_80", "trg_other_lengths"], "C06.fields": ["trg_complete_80"], "C06.ordered": ["trg_complete_80"]},
+        "kani_arbiter": {"C06.accept_iff": ["trg_complete_80", "trg_other_lengths"], "C06.fields": ["trg_complete_80"],
+                         "C06.ordered": ["trg_complete_80"]},
         "level": "proof",
     },
 }
